@@ -260,4 +260,44 @@ example : readerVerdict (some 2) [1, 2, 3] .eof [([1, 2, 3], some .eof)] ≠ "ok
     readerVerdict (some 2) [1, 2, 3] .eof [([1, 2], some .eof)] ≠ "ok" ∧
     readerVerdict (some 2) [1, 2, 3] .eof [([1, 2], some .tooLarge), ([], none)] ≠ "ok" := by decide
 
+/-! ### the wire spelling of the request path (stream c17.target) -/
+
+/-- However the client spells the path on the wire — any subset of its bytes percent-encoded, hex
+digits in either case — the server decodes the same path, so the handler sees exactly what it sees
+for the plain spelling: the limit of the longest scope matching the decoded path applies. -/
+theorem C17_spelling_irrelevant (cs : Bool) (t : Table) (ch : List (Option Bool)) (p : Bytes) (u : Under)
+    (bufs : List Nat) :
+    serveTarget cs t (spell ch p) u bufs = some (serveBody cs t p u bufs) := by
+  unfold serveTarget; rw [unescape_spell]; rfl
+
+/-- A target without `%` is its own decoded form. -/
+theorem C17_plain_spelling (cs : Bool) (t : Table) (p : Bytes) (h : ∀ c ∈ p, c ≠ 37) (u : Under) (bufs : List Nat) :
+    serveTarget cs t p u bufs = some (serveBody cs t p u bufs) := by
+  unfold serveTarget; rw [unescape_plain p h]; rfl
+
+/-- The judged predicate of c17.target holds of the model for every table, request target,
+scripted body and caller. -/
+theorem C17_target_model_verdict_ok (cs : Bool) (raw : List (Bytes × Nat)) (target : Bytes) (u : Under)
+    (bufs : List Nat) :
+    targetVerdict cs raw target u.data u.endErr (serveTarget cs (buildTable raw) target u bufs) = "ok" :=
+  targetVerdict_ok cs raw target u bufs
+
+/-- non-vacuity of `h` in `C17_plain_spelling` -/
+example : ∀ c ∈ ([47, 117, 112] : Bytes), c ≠ 37 := by decide
+
+/-- test: `/upl%6Fad/a` and `/%75pload` are spellings of `/upload/a` and `/upload`; `/files/my%20docs`
+of `/files/my docs`; a malformed escape is no path -/
+example : unescapePath [47, 117, 112, 108, 37, 54, 70, 97, 100, 47, 97] = some [47, 117, 112, 108, 111, 97, 100, 47, 97] ∧
+    unescapePath [47, 37, 55, 53, 112] = some [47, 117, 112] ∧
+    spell [none, some true] [47, 117, 112] = [47, 37, 55, 53, 112] ∧
+    unescapePath [47, 109, 121, 37, 50, 48, 100] = some [47, 109, 121, 32, 100] ∧
+    unescapePath [47, 37, 54] = none := by decide
+
+/-- test: the judge refuses a handler that was given the root scope's 9 bytes for `/%75p` under
+`body / 9`, `body /up 3` -/
+example : targetVerdict true [([47], 9), ([47, 117, 112], 3)] [47, 37, 55, 53, 112] [1, 2, 3, 4, 5] .eof
+      (some [([1, 2, 3, 4, 5], some .eof)]) ≠ "ok" ∧
+    targetVerdict true [([47], 9), ([47, 117, 112], 3)] [47, 37, 55, 53, 112] [1, 2, 3, 4, 5] .eof
+      (some [([1, 2, 3], some .tooLarge)]) = "ok" := by decide
+
 end Casket.Props.C17
